@@ -226,6 +226,7 @@ BODY_A = {
     "a12": [("lower", '"Hp" + "B"'), '"Hp" / 2'],
     "a13": ['zero if flagF else "Hp"', ("diagonal", '"B" if flagT else "Hp"')],
     "a14": ['g("Hp", "B")', ("offdiagonal", '-"Hp @ A"')],
+    "a15": ['"Hp" / 2', ("lower", '"Hp" + "B"'), '"B"'],
 }
 BODY_B = {
     "b1": ['"Hp"'],
@@ -239,6 +240,7 @@ BODY_B = {
     "b9": ['"Ad @ H @ A" - "Hp"'],
     "b10": ['"Hp @ A @ Hp @ A" + "Hp"'],
     "b11": [("lower", '-"A".adj'), '"Hp"'],
+    "b12": ['"Hp"', ("diagonal", '"A"'), ("lower", '-"A".adj'), '"Hp @ A"'],
 }
 K3_BODY = {"k3a": [("diagonal", 'f("Hp")')], "k3b": [("diagonal", '"Hp" + f("B")'), ("offdiagonal", '"Hp"')]}
 STARTS_A = [0, 1, "H_0", None]
